@@ -43,7 +43,9 @@ HARNESS = dict(
     sources=["mpi_c07.cc", "pmpi_sched.cc"],
     mpi=True,
     repo_sources=["dune/common/exceptions.cc", "dune/common/stdstreams.cc"],
-    flags=["-g1"],   # line tables only: a quarter less compile time, sanitizer reports still carry file:line
+    # -g1: line tables only (sanitizer reports still carry file:line); -flto=8: the one big translation unit is code-generated in
+    # parallel (78 s -> 23 s wall for 27 element types)
+    flags=["-g1", "-flto=8"],
 )
 RULE = ("cases: collective (sum/prod/min/max/user functors incl. associative non-commutative ones in 7 call forms, "
         "broadcast, gather(v), scatter(v), allgather(v), barrier; blocking, future-based and scalar forms) on world / "
